@@ -15,7 +15,34 @@ def main():
     chk = mod.Check()
     if hasattr(mod, "main"):
         sys.exit(mod.main(chk, tier, sys.argv[3:]))
+    if "--replay" in sys.argv:
+        sys.exit(replay(chk, sys.argv[sys.argv.index("--replay") + 1]))
     sys.exit(framework.run_check(chk, tier))
+
+
+def replay(chk, path):
+    """re-run one recorded input against the implementation only and judge it with the property predicate"""
+    import json
+    payload = json.load(open(path))
+    if "input" not in payload or payload.get("input") is None:
+        print(f"replay {path}: no concrete input recorded ({payload.get('broken') or payload.get('correspondence')})")
+        return 2
+    chk.setup()
+    try:
+        case = chk.case_from_json(payload["input"])
+        obs = chk.run_impl(case)
+        why = chk.monitor(case, obs)
+    except Exception as e:  # noqa
+        print(f"replay {path}: this input shape cannot be replayed directly ({e!r})")
+        return 2
+    finally:
+        chk.teardown()
+    if why:
+        print(f"VIOLATION property={chk.pid} replay={path}")
+        print("  " + why)
+        return 1
+    print(f"OK property={chk.pid} replay={path} holds on the current tree")
+    return 0
 
 
 if __name__ == "__main__":
